@@ -240,7 +240,16 @@ func (e *Engine) checkC06(st *Step) {
 					if _, still := app.Allocs[st.Op.Key]; still {
 						e.violate("C06", "placeholder-survives-confirm", "/app", fmt.Sprintf("placeholder %s still listed by application %s after the swap was confirmed", st.Op.Key, st.Op.App))
 					}
-					if _, ok := app.Allocs[realKey]; !ok {
+					if papp.State == "Failing" {
+						// a failing application does not start new allocations: the replacement is cancelled when the
+						// placeholder is confirmed; the real allocation must then be nowhere
+						e.obs("c06.swaps_cancelled_for_failing_app", 1)
+						for nid, n := range post.Nodes {
+							if _, on := n.Allocs[realKey]; on {
+								e.violate("C06", "real-orphan-after-confirm", "/failing-app", fmt.Sprintf("real allocation %s is on node %s after the replacement of %s was confirmed for the failing application %s", realKey, nid, st.Op.Key, st.Op.App))
+							}
+						}
+					} else if _, ok := app.Allocs[realKey]; !ok {
 						e.violate("C06", "real-missing-after-confirm", "", fmt.Sprintf("real allocation %s not listed by application %s (%s) after the swap of %s was confirmed", realKey, st.Op.App, app.State, st.Op.Key))
 					}
 				} else {
